@@ -317,11 +317,28 @@ def append_ghost_arg(src, methods, ghost_arg):
     st = sig(lex(src))
     edits = []
     for i, t in enumerate(st):
-        if t.kind == 'id' and t.text in methods and i + 1 < len(st) and st[i + 1].kind == 'p' and st[i + 1].text == '(':
+        if not (t.kind == 'id' and t.text in methods):
+            continue
+        po = i + 1
+        # turbofish: name::<T>(...)
+        if po + 2 < len(st) and st[po].text == ':' and st[po + 1].text == ':' and st[po + 2].text == '<':
+            depth, k = 0, po + 2
+            while k < len(st):
+                if st[k].text == '<':
+                    depth += 1
+                elif st[k].text == '>' and st[k - 1].text != '-':
+                    depth -= 1
+                    if depth == 0:
+                        break
+                elif st[k].text in ('(', '['):
+                    k = match_close(st, k)
+                k += 1
+            po = k + 1
+        if po < len(st) and st[po].kind == 'p' and st[po].text == '(':
             if i > 0 and st[i - 1].kind == 'id' and st[i - 1].text == 'fn':
                 continue
-            j = match_close(st, i + 1)
-            empty = (j == i + 2)
+            j = match_close(st, po)
+            empty = (j == po + 1)
             pos = st[j].start
             # trailing comma?
             if not empty and st[j - 1].kind == 'p' and st[j - 1].text == ',':
